@@ -45,6 +45,9 @@ def main(argv=None) -> int:
     except Exception:
         traceback.print_exc()
         print(f"MACHINERY-FAILURE {pid}: unexpected exception in the harness", file=sys.stderr)
+        if ctx.violations:
+            ctx.notes.append("run cut short by an exception in the harness after violations had been established")
+            return ctx.finish(rule="(run cut short by a harness exception; the violations listed were established before it)")
         return 2
 
 
